@@ -201,8 +201,19 @@ def branches(x, start, bound):
     return out
 
 
-def explore(make_bodies, watched, bound, check, prefix=(), stats=None, max_execs=None, instr=False):
-    """depth-first exploration below `prefix`; check(x) -> list of violations. Returns (executions, violations)."""
+def one_execution(make_bodies, watched, pre, bound, check, instr, start):
+    """run ONE schedule and boil it down to what the explorer needs (small, picklable)"""
+    x = run_schedule(make_bodies, watched, pre, instr=instr)
+    return {"choices": [p[2] for p in x.points], "locs": None, "branches": branches(x, start, bound), "obs": x.observation,
+            "viols": check(x), "n": len(x.points)}
+
+
+def explore(make_bodies, watched, bound, check, prefix=(), stats=None, max_execs=None, instr=False, fork_each=True):
+    """depth-first exploration below `prefix`; check(x) -> list of violations.
+    fork_each: every execution runs in a freshly forked child, so that it is a function of its choice list alone even when
+    the code under test keeps state at module/class level (a cache warmed by an earlier execution would otherwise change
+    the sequence of scheduling points and make recorded prefixes meaningless)."""
+    from .core import isolated
     if stats is None:
         stats = {"executions": 0, "points_max": 0, "outcomes": {}, "violations": []}
     stack = [list(prefix)]
@@ -211,16 +222,19 @@ def explore(make_bodies, watched, bound, check, prefix=(), stats=None, max_execs
         if max_execs is not None and stats["executions"] >= max_execs:
             stats["capped"] = True
             break
-        x = run_schedule(make_bodies, watched, pre, instr=instr)
+        if fork_each:
+            r = isolated(one_execution, make_bodies, watched, pre, bound, check, instr, len(pre))
+        else:
+            r = one_execution(make_bodies, watched, pre, bound, check, instr, len(pre))
         stats["executions"] += 1
-        stats["points_max"] = max(stats["points_max"], len(x.points))
-        choices = [p[2] for p in x.points]
-        key = repr(x.observation)
+        stats["points_max"] = max(stats["points_max"], r["n"])
+        choices = r["choices"]
+        key = repr(r["obs"])
         stats["outcomes"][key] = stats["outcomes"].get(key, 0) + 1
-        for v in check(x):
+        for v in r["viols"]:
             v["schedule"] = choices[:_last_nonzero(choices) + 1]
             stats["violations"].append(v)
-        for i, alt in branches(x, len(pre), bound):
+        for i, alt in r["branches"]:
             stack.append(choices[:i] + [alt])
     return stats
 
